@@ -12,13 +12,17 @@ mod c11;
 mod c12;
 mod c13;
 mod c14;
+mod c15;
 mod c16;
 mod c17;
+mod c18;
 mod c19;
 mod probe;
 mod c02;
+mod c03;
 mod c04;
 mod c05;
+mod c06;
 mod spell;
 mod closure;
 mod optable;
@@ -32,8 +36,10 @@ fn dispatch(id: &str, ctx: &mut Ctx) -> bool {
     match id {
         "C01" => c01::run(ctx),
         "C02" => c02::run(ctx),
+        "C03" => c03::run(ctx),
         "C04" => c04::run(ctx),
         "C05" => c05::run(ctx),
+        "C06" => c06::run(ctx),
         "C07" => c07::run(ctx),
         "C08" => c08::run(ctx),
         "C09" => c09::run(ctx),
@@ -42,8 +48,10 @@ fn dispatch(id: &str, ctx: &mut Ctx) -> bool {
         "C12" => c12::run(ctx),
         "C13" => c13::run(ctx),
         "C14" => c14::run(ctx),
+        "C15" => c15::run(ctx),
         "C16" => c16::run(ctx),
         "C17" => c17::run(ctx),
+        "C18" => c18::run(ctx),
         "C19" => c19::run(ctx),
         _ => return false,
     }
